@@ -22,6 +22,24 @@ SCF = "seqm.seqm_functions.scf_loop"
 # O1 get_error
 
 
+def replay_get_error(model):
+    """real get_error in float64 over a grid of requested thresholds: the energy is unchanged and every density element has
+    moved by 45*eps (three times the element threshold, far above the Frobenius one); the molecule must be reported not converged."""
+    import torch
+    import seqm.seqm_functions.scf_loop as S_
+
+    torch.set_default_dtype(torch.float64)
+    rows = []
+    for eps in (1e-4, 1e-6, 1e-8, 1e-9, 1e-10, 1e-11, 1e-12):
+        n = 3
+        Pold = torch.zeros(2, n, n)
+        P = Pold + 45.0 * eps
+        nc = torch.tensor([True, True])
+        flag, *_ = S_.get_error(Pold, P, nc, torch.full((2,), float(n)), torch.zeros(2), torch.zeros(2), torch.zeros(2), torch.zeros(2), torch.zeros(2), eps)
+        rows.append({"eps": eps, "max|dP|": 45.0 * eps, "element_threshold": S_.CONVERGENCE_DM_ELEMENT_FACTOR * eps, "reported_not_converged": [bool(x) for x in flag]})
+    return {"reproduced": any(not all(r["reported_not_converged"]) for r in rows), "rows": rows}
+
+
 def task_get_error(ctx):
     """not-converged' = False  =>  |dE| <= eps, ||dP||_F/size <= 2 eps, max|dP| <= 15 eps (and DIIS <= 50 eps), evaluated on
     the density handed in; inactive (already converged) molecules keep their stored errors."""
@@ -57,11 +75,11 @@ def task_get_error(ctx):
                         dE = Een.a[m] - Ee.a[m]
                         fro2 = sum((P.a[m, i, j] - Pold.a[m, i, j]) ** 2 for i in range(n) for j in range(n))
                         ctx.prove(tag + ".mol%d.converged=>|dE|<=eps" % m, Sym(E.implies(conv.n, ((dE <= eps) & (-dE <= eps)).n)), pc=p.pc)
-                        ctx.prove(tag + ".mol%d.converged=>frobenius-residual<=2eps" % m, Sym(E.implies(conv.n, (fro2 <= (2 * eps * size.a[m]) ** 2).n)), pc=p.pc)
+                        ctx.prove(tag + ".mol%d.converged=>frobenius-residual<=2eps" % m, Sym(E.implies(conv.n, (fro2 <= (2 * eps * size.a[m]) ** 2).n)), pc=p.pc, replay=replay_get_error)
                         for i in range(n):
                             for j in range(n):
                                 d = P.a[m, i, j] - Pold.a[m, i, j]
-                                ctx.prove(tag + ".mol%d.converged=>|dP[%d,%d]|<=15eps" % (m, i, j), Sym(E.implies(conv.n, ((d <= 15 * eps) & (-d <= 15 * eps)).n)), pc=p.pc)
+                                ctx.prove(tag + ".mol%d.converged=>|dP[%d,%d]|<=15eps" % (m, i, j), Sym(E.implies(conv.n, ((d <= 15 * eps) & (-d <= 15 * eps)).n)), pc=p.pc, replay=replay_get_error)
                         if use_diis:
                             ctx.prove(tag + ".mol%d.converged=>diis<=50eps" % m, Sym(E.implies(conv.n, (diis.a[m] <= 50 * eps).n)), pc=p.pc)
                         ctx.prove(tag + ".mol%d.stored-err-is-dE" % m, err.a[m] == dE, pc=p.pc)
@@ -71,7 +89,7 @@ def task_get_error(ctx):
                         if use_diis:
                             ok_before = ok_before & (diis.a[m] <= 50 * eps)
                         ctx.prove(tag + ".mol%d.inactive-within-thresholds-stays-converged" % m, Sym(E.implies(ok_before.n, conv.n)), pc=p.pc)
-                        ctx.prove(tag + ".mol%d.inactive-beyond-a-threshold-is-flagged" % m, Sym(E.implies((~ok_before).n, flag.n)), pc=p.pc)
+                        ctx.prove(tag + ".mol%d.inactive-beyond-a-threshold-is-flagged" % m, Sym(E.implies((~ok_before).n, flag.n)), pc=p.pc, replay=replay_get_error)
     x = real("x")
     ctx.canary("loosened-threshold", Sym(E.implies((x <= 3 * real("eps")).n, (x <= 2 * real("eps")).n)), [real("eps") > 0])
     ctx.assume_note("shape-bounded: two molecules, %dx%d densities; thresholds read from the module constants (2, 15, 50)" % (n, n))
@@ -754,6 +772,114 @@ def replay_ksa_flag(model):
     return {"reproduced": bad, "input": "AM1 H2CO, KSA {max_rank 3, T_el 1500 K}", "rows": rows}
 
 
+
+def replay_ksa_batch(model):
+    """real code: KSA on the zero-padded batch [water, H2] (H2 has ONE independent density direction; the Krylov rank loop is
+    batch-wide, so H2's second response vector is a multiple of its first), against the same molecules computed alone."""
+    import io, contextlib
+    import torch
+    from seqm.seqm_functions.constants import Constants
+    from seqm.Molecule import Molecule
+    from seqm.ElectronicStructure import Electronic_Structure
+
+    torch.set_default_dtype(torch.float64)
+    KSA = [3, {"k": 6, "max_rank": 3, "err_threshold": 0.0, "T_el": 1500}]
+    w = [[0.0, 0.0, 0.0], [0.96, 0.0, 0.0], [-0.24, 0.93, 0.0]]
+    h2 = [[0.0, 0.0, 0.0], [0.74, 0.0, 0.0], [0.0, 0.0, 0.0]]
+
+    def run(species, coords):
+        params = {"method": "AM1", "scf_eps": 1e-8, "scf_converger": KSA, "sp2": [False, 1e-5], "elements": [0, 1, 6, 8], "learned": [], "pair_outer_cutoff": 1e10, "eig": True}
+        mol = Molecule(Constants(), params, torch.tensor(coords), torch.tensor(species))
+        with contextlib.redirect_stdout(io.StringIO()):
+            Electronic_Structure(params)(mol)
+        return [float(x) for x in mol.Etot]
+
+    out = {}
+    for name, sp, xyz in (("water alone", [[8, 1, 1]], [w]), ("H2 alone", [[1, 1]], [h2[:2]]), ("batch [water, H2+padding]", [[8, 1, 1], [1, 1, 0]], [w, h2])):
+        try:
+            out[name] = run(sp, xyz)
+        except Exception as exc:  # noqa
+            out[name] = "raised %s: %s" % (type(exc).__name__, str(exc)[:160])
+    alone = [out["water alone"], out["H2 alone"]]
+    bad = isinstance(out["batch [water, H2+padding]"], str) or any(isinstance(a, str) for a in alone)
+    if not bad:
+        b = out["batch [water, H2+padding]"]
+        bad = any(not (abs(b[i] - alone[i][0]) < 1e-6) for i in range(2))
+    return {"reproduced": bool(bad), "Etot": out}
+
+
+def task_ksa_subspace_solve(ctx):
+    """O4 for the KSA driver: the statements of scf_forward3 that solve for the update inside the Krylov subspace
+    (Rank_m = ... up to IdentRes = ..., extracted from the source on every run) are total and return the orthogonal projection of
+    the residual onto the span of the response vectors -- for EVERY set of response vectors, linearly dependent ones included:
+    the rank loop is shared by the whole batch, so a molecule with fewer independent density directions than the rank reached
+    (H2 has one) meets a singular Gram matrix.  1x1 'matrices', rank 1 and rank 2 (two vectors in a one-dimensional space: always
+    dependent), and 2x2 symmetric matrices with rank 1."""
+    import seqm.seqm_functions.scf_loop as S_
+    from contracts.C07_differentiability import _quiet
+
+    ctx.under_contract(SCF + ":scf_forward3", note="subspace solve inside the Krylov loop: statements `Rank_m = k + 1` ... `IdentRes = ...` (extracted on every run)")
+    tree = ast.parse(textwrap.dedent(inspect.getsource(S_.scf_forward3)))
+    stmts = None
+    for n in ast.walk(tree):
+        if isinstance(n, ast.While):
+            names = [t.id for b in n.body if isinstance(b, ast.Assign) for t in b.targets if isinstance(t, ast.Name)]
+            if "IdentRes" in names and "Rank_m" in names:
+                k0 = next(i for i, b in enumerate(n.body) if isinstance(b, ast.Assign) and isinstance(b.targets[0], ast.Name) and b.targets[0].id == "Rank_m")
+                k1 = max(i for i, b in enumerate(n.body) if isinstance(b, ast.Assign) and isinstance(b.targets[0], ast.Name) and b.targets[0].id == "IdentRes")
+                stmts = [b for b in n.body[k0:k1 + 1] if not (isinstance(b, ast.Expr) and isinstance(b.value, ast.Constant))]
+    if not stmts:
+        ctx.error("anchor", "no Krylov loop assigning Rank_m and IdentRes found in scf_forward3")
+        return
+    code = compile(ast.Module(body=stmts, type_ignores=[]), "<subspace solve of scf_forward3>", "exec")
+    loads = {x.id for b in stmts for x in ast.walk(b) if isinstance(x, ast.Name) and isinstance(x.ctx, ast.Load)}
+    stores = {x.id for b in stmts for x in ast.walk(b) if isinstance(x, ast.Name) and isinstance(x.ctx, ast.Store)}
+    rep = []
+    replay = lambda mdl: (rep or rep.append(_quiet(replay_ksa_batch)) or rep)[0]
+    checked = 0
+    for nb, rank in ((1, 1), (1, 2), (2, 1)):
+        def thunk():
+            Wt = st.symbolic((1, nb, nb, 2), "W")
+            if nb == 2:  # symmetric matrices
+                for r in range(2):
+                    Wt.a[0, 1, 0, r] = Wt.a[0, 0, 1, r]
+            d = st.symbolic((1, nb, nb), "dDS")
+            if nb == 2:
+                d.a[0, 1, 0] = d.a[0, 0, 1]
+            env = {"torch": st, "W": Wt, "k": rank - 1, "dDS": d, "D": d.clone()}
+            missing = (loads - stores) - set(env)
+            if missing:
+                raise Unmodelled("the subspace-solve statements read names this contract does not provide: %r" % sorted(missing))
+            exec(code, env)
+            return env["IdentRes"], Wt, d
+
+        ex = ctx.explore(thunk, name="ksa-subspace-solve[%dx%d,rank %d]" % (nb, nb, rank), max_paths=64)
+        for p in ex.paths:
+            tag = "ksa_subspace[%dx%d,rank=%d]@p%d" % (nb, nb, rank, p.path_id)
+            if p.raised is not None:
+                if isinstance(p.raised, Unmodelled):
+                    raise p.raised
+                ctx.fail(tag + ".returns", repr(p.raised), replay=replay)
+                continue
+            res, Wt, d = p.value
+            for i in range(nb):
+                for j in range(nb):
+                    ctx.prove(tag + ".IdentRes[%d,%d].is-defined-for-every-set-of-response-vectors" % (i, j), Sym(E.defined(res.a[0, i, j].n)), pc=p.pc, replay=replay,
+                              classify=lambda m_, r: "singular-gram-matrix")
+                    checked += 1
+            for r in range(rank):
+                dot = S(0)
+                for i in range(nb):
+                    for j in range(nb):
+                        dot = dot + Wt.a[0, i, j, r] * (res.a[0, i, j] - d.a[0, i, j])
+                dfd = [Sym(E.defined(res.a[0, i, j].n)) for i in range(nb) for j in range(nb)]
+                ctx.prove_eq(tag + ".residual-of-the-projection-is-orthogonal-to-W[%d]" % r, dot, S(0), pc=list(p.pc) + dfd)
+                checked += 1
+    if not checked:
+        ctx.error("ksa_subspace.vacuous", "no obligation generated")
+    ctx.assume_note("ksa_subspace_solve: pseudo-inverse modelled exactly (rank decided by det and trace), its numerical cut-off is not; matrices up to 2x2 and rank up to 2")
+
+
 def task_ksa_flag(ctx):
     """O1 for the KSA driver: the statement that sets its convergence flag must clear the flag only if the energy change AND
     a density residual are within bounds proportional to eps (the bounds get_error enforces for the other three drivers).
@@ -827,5 +953,5 @@ def task_density_lemmas(ctx):
     ctx.undecided_clause("commutator [F,P] = 0 and idempotency of the returned density in floating point")
 
 
-TASKS_QUICK = ["get_error", "scf_forward0", "scf_forward1", "scf_forward2_w0", "scf_forward2_w1", "scf_forward2_w2", "scf_forward2_w3", "ksa_flag", "termination", "padding_shift", "sp2_padding_guard", "density_lemmas"]
+TASKS_QUICK = ["get_error", "scf_forward0", "scf_forward1", "scf_forward2_w0", "scf_forward2_w1", "scf_forward2_w2", "scf_forward2_w3", "ksa_flag", "ksa_subspace_solve", "termination", "padding_shift", "sp2_padding_guard", "density_lemmas"]
 TASKS_THOROUGH = TASKS_QUICK
